@@ -1,13 +1,13 @@
 #!/bin/bash
-# usage: tools/harmless_run.sh <dir with *.diff>   — apply each behaviour-preserving patch to /repo, run ALL quick checks, undo
+# usage: [PROPS="C01 C04"] tools/harmless_run.sh <dir with *.diff>   — apply each behaviour-preserving patch to /repo, run ALL quick checks (or those of $PROPS), undo
 dir="$1"
 cd /verif
 for f in "$dir"/*.diff; do
   git -C /repo diff --quiet || { echo "/repo dirty"; exit 2; }
   git -C /repo apply "$f" || { echo "$(basename $f): does not apply"; continue; }
   echo "##### $(basename $f)"
-  for i in 01 02 03 04 05 06 07 08 09 10 11 12 13 14 15 16 17 18 19 20; do
-    ./check C$i quick 2>&1 | grep -E "quick:" | grep -v "quick: ok" | cut -c1-200
+  for i in ${PROPS:-C01 C02 C03 C04 C05 C06 C07 C08 C09 C10 C11 C12 C13 C14 C15 C16 C17 C18 C19 C20}; do
+    ./check $i quick 2>&1 | grep -E "quick:" | grep -v "quick: ok" | cut -c1-200
   done
   git -C /repo checkout -- .
 done
